@@ -87,6 +87,47 @@ def defaultsOf : List Field → Option (List (String × Obj))
     | some v, some r => some ((f.name, v) :: r)
     | _, _ => Option.none
 
+/-- what a mapping hook returns: a `Converter` builds the target class of the declared type
+(`mapping_structure_factory`: `res = structure_to(res)`), a `BaseConverter` always a plain `dict` (`_structure_dict`) -/
+def mapRes (cfg : Cfg) (k : MK) (kvs : List (Obj × Obj)) : Obj :=
+  if cfg.gen then mkMapObj k kvs else .dict kvs
+
+theorem mapRes_plain (cfg : Cfg) {k : MK} (kvs : List (Obj × Obj)) (hk : k.target = Option.none) :
+    mapRes cfg k kvs = .dict kvs := by
+  unfold mapRes mkMapObj; rw [hk]; simp
+
+theorem mapRes_target (cfg : Cfg) {k : MK} {d : DK} (kvs : List (Obj × Obj)) (hg : cfg.gen = true) (hk : k.target = some d) :
+    mapRes cfg k kvs = .mdict d kvs := by
+  unfold mapRes mkMapObj; rw [hk]; simp [hg]
+
+mutual
+/-- every mapping type inside the type has the target class `dict` (`dict` / `Mapping` / `MutableMapping`): the mapping
+types within a `BaseConverter`'s support -- its `_structure_dict` returns a plain `dict` whatever the declared class, it
+has no hook for `Counter[K]`, and its `_unstructure_mapping` rebuilds `mapping.__class__(pairs)` (wrong for a `Counter`,
+a `TypeError` for a `defaultdict`) -/
+def Ty.plainMaps : Ty → Bool
+  | .coll _ t => t.plainMaps
+  | .tupleHet ts => Ty.plainMapsL ts
+  | .map k kt vt => k.target.isNone && kt.plainMaps && vt.plainMaps
+  | .opt t => t.plainMaps
+  | .wrap _ t => t.plainMaps
+  | _ => true
+termination_by structural t => t
+def Ty.plainMapsL : List Ty → Bool
+  | [] => true
+  | t :: ts => t.plainMaps && Ty.plainMapsL ts
+termination_by structural ts => ts
+end
+
+/-- the same for every field type of the class table -/
+def World.plainMaps (w : World) : Prop :=
+  ∀ c, ∀ f ∈ w.fields c, ∀ t, f.ty = some t → t.plainMaps = true
+
+/-- the mapping-class scope of a call: a `Converter` structures into every target class; a `BaseConverter` is only
+asked about types (and class tables) whose mapping types all have the target class `dict` -/
+def MapsInScope (w : World) (cfg : Cfg) (t : Ty) : Prop :=
+  cfg.gen = true ∨ (w.plainMaps ∧ t.plainMaps = true)
+
 /-! ### `Literal[...]` -/
 
 def Obj.isEnumM : Obj → Bool
@@ -118,7 +159,12 @@ def conf (w : World) : Ty → Obj → Bool
   | .coll k t, .coll ck xs =>
       ck == k.structTo && confL w t xs && (!ck.isSet || (nodupPy xs && hashableL w xs))
   | .tupleHet ts, .coll .tuple xs => confT w ts xs
-  | .map _ kt vt, .dict kvs => confKV w kt vt kvs && nodupPy (keysOf kvs) && hashableL w (keysOf kvs)
+  -- a mapping type: an instance of EXACTLY its target class (`dict` for `dict` / `Mapping` / `MutableMapping`;
+  -- `OrderedDict`, `defaultdict`, `Counter` for those)
+  | .map k kt vt, .dict kvs =>
+      confKV w kt vt kvs && nodupPy (keysOf kvs) && hashableL w (keysOf kvs) && k.target.isNone
+  | .map k kt vt, .mdict d kvs =>
+      confKV w kt vt kvs && nodupPy (keysOf kvs) && hashableL w (keysOf kvs) && (k.target == some d)
   | .opt _, .none => true
   | .opt t, x => conf w t x
   | .wrap _ t, x => conf w t x
